@@ -79,6 +79,7 @@ fn reorder(entries: &[Entry], t: &mut Tape) -> Vec<Entry> {
             let e = &entries[i];
             match &e.kind {
                 Kind::Dir(c) => Entry { name: e.name.clone(), class: e.class, kind: Kind::Dir(reorder(c, t)) },
+                Kind::Link(c) => Entry { name: e.name.clone(), class: e.class, kind: Kind::Link(reorder(c, t)) },
                 _ => e.clone(),
             }
         })
